@@ -303,6 +303,27 @@ pub fn gen_c09<W: Write>(out: &mut W, thorough: bool, seed: u64) {
         }
         writeln!(out, "fx 3 {} {} {}", bad.ccys[0], toks.len(), toks.join(" ")).unwrap();
         writeln!(out, "fxdump 3").unwrap();
+        // under-specified through the BASE: the whole quote set minus the quotes naming one leaf currency, with that
+        // currency as the base (for three currencies: a single quote and a base outside its pair); and a valid
+        // market given with a base that no quote names at all
+        {
+            let leaf = (0..n).rev().find(|c| m.quotes.iter().filter(|q| q.0 == *c || q.1 == *c).count() == 1).unwrap_or(n - 1);
+            let mut toks = Vec::new();
+            for (a, b, rate) in m.quotes.iter().filter(|q| q.0 != leaf && q.1 != leaf) {
+                toks.push(format!("{} {} F{} -", m.ccys[*a], m.ccys[*b], hf(*rate)));
+            }
+            if !toks.is_empty() {
+                writeln!(out, "fx 3 {} {} {}", m.ccys[leaf], toks.len(), toks.join(" ")).unwrap();
+                writeln!(out, "fxdump 3").unwrap();
+                writeln!(out, "fxrate 3 {} {}", m.ccys[leaf], m.ccys[(leaf + 1) % n]).unwrap();
+            }
+            let mut toks = Vec::new();
+            for (a, b, rate) in m.quotes.iter() {
+                toks.push(format!("{} {} F{} -", m.ccys[*a], m.ccys[*b], hf(*rate)));
+            }
+            writeln!(out, "fx 3 zzz {} {}", toks.len(), toks.join(" ")).unwrap();
+            writeln!(out, "fxdump 3").unwrap();
+        }
         writeln!(out, "reset").unwrap();
     }
 }
